@@ -191,7 +191,10 @@ def defineSettings() -> List[setting.Setting]:
             description="Minimum mesh size used when generating an axial mesh for the "
             "uniform mesh converter. Providing a value for this setting allows fuel "
             "and control material boundaries to be enforced better in uniform mesh.",
-            schema=vol.All(vol.Coerce(float), vol.Range(min=0.0, min_included=False)),
+            schema=vol.Any(
+                vol.All(vol.Coerce(float), vol.Range(min=0.0, min_included=False)),
+                None,
+            ),
         ),
         setting.Setting(
             CONF_DETAILED_AXIAL_EXPANSION,
